@@ -281,7 +281,7 @@ func seqAxioms(S, E string) string {
 (assert (forall ((s $S) (n Int)) (! (=> (and (<= 0 n) (<= n ($S.len s))) (= ($S.len ($S.drop s n)) (- ($S.len s) n))) :pattern (($S.drop s n)))))
 (assert (forall ((s $S) (n Int) (i Int)) (! (=> (and (<= 0 n) (<= 0 i) (<= n ($S.len s))) (= ($S.at ($S.drop s n) i) ($S.at s (+ i n)))) :pattern (($S.at ($S.drop s n) i)))))
 (assert (forall ((s $S) (i Int) (e $E)) (! (= ($S.len ($S.upd s i e)) ($S.len s)) :pattern (($S.upd s i e)))))
-(assert (forall ((s $S) (i Int) (e $E) (j Int)) (! (= ($S.at ($S.upd s i e) j) (ite (= i j) e ($S.at s j))) :pattern (($S.at ($S.upd s i e) j)))))
+(assert (forall ((s $S) (i Int) (e $E) (j Int)) (! (=> (and (<= 0 j) (< j ($S.len s))) (= ($S.at ($S.upd s i e) j) (ite (= i j) e ($S.at s j)))) :pattern (($S.at ($S.upd s i e) j)))))
 (assert (forall ((a $S) (b $S)) (! (= ($S.eq a b) (and (= ($S.len a) ($S.len b)) (forall ((i Int)) (! (=> (and (<= 0 i) (< i ($S.len a))) (= ($S.at a i) ($S.at b i))) :pattern (($S.at a i)) :pattern (($S.at b i)))))) :pattern (($S.eq a b)))))
 (assert (forall ((a $S) (b $S)) (! (=> ($S.eq a b) (= a b)) :pattern (($S.eq a b)))))
 (assert (forall ((s $S)) (! (= ($S.take s ($S.len s)) s) :pattern (($S.take s ($S.len s))))))
